@@ -40,8 +40,9 @@ BadObs ==
           [] n = "tree" -> "tree" \in DOMAIN ev' /\ ("tree" \notin DOMAIN e \/ CanonV(ev'.tree) # CanonV(e.tree))
           [] n = "keys" -> "keys" \in DOMAIN ev' /\ ("keys" \notin DOMAIN e \/ ev'.keys # Range(e.keys))
           [] n = "cfg"  -> CanonV(cfg') # CanonV(FixV(e.cfg))}
-BadAct == {n \in {"C02_Reproduces", "C03_NoPlaintext"} :
-              CASE n = "C02_Reproduces" -> ~A_Reproduces [] n = "C03_NoPlaintext" -> ~A_NoPlaintext}
+BadAct == {n \in {"C02_Reproduces", "C03_NoPlaintext", "C06_SetUnchanged"} :
+              CASE n = "C02_Reproduces" -> ~A_Reproduces [] n = "C03_NoPlaintext" -> ~A_NoPlaintext
+                [] n = "C06_SetUnchanged" -> ~A_SetUnchanged}
 Report ==
     LET bo == BadObs
         bi == IF bo = {} THEN BadAct ELSE {}
